@@ -395,7 +395,7 @@ def equinox_case(X, Y):
 
 
 def ccsds_case(kind, fmt, X, Y):
-    """OPM (state + impulsive maneuver) / OEM (2-point ephemeris): every written epoch, decoded with the TIME_SYSTEM the message
+    """OPM (state + an impulsive and a continuous maneuver) / OEM (2-point ephemeris): every written epoch, decoded with the TIME_SYSTEM the message
     declares, is the instant of the object it describes -- also when maneuver / point dates carry another label than the header date"""
     def run(env, v):
         if not env.symbolic:
@@ -416,9 +416,10 @@ def ccsds_case(kind, fmt, X, Y):
         tau = v["d"] * 86400 + v["s"] - c03.rel_tai(env, X, v)
         if kind == "opm":
             sv = StateVector([7e6, 0.0, 0.0, 0.0, 7.5e3, 0.0], a, "cartesian", "EME2000")
-            sv.maneuvers = [ImpulsiveMan(b, [1.0, 0.0, 0.0])]
+            from beyond.orbits.man import ContinuousMan
+            sv.maneuvers = [ImpulsiveMan(b, [1.0, 0.0, 0.0]), ContinuousMan(b, STD.of(120), dv=[0.0, 1.0, 0.0])]
             text = ccsds.dumps(sv, fmt=fmt)
-            expected = {0: tau, 1: tau}
+            expected = {0: tau, 1: tau, 2: tau}
         else:
             later = (a + STD.of(60)).change_scale(Y)
             e = Ephem([StateVector([7e6, 0.0, 0.0, 0.0, 7.5e3, 0.0], a, "cartesian", "EME2000"),
@@ -445,10 +446,13 @@ def ccsds_case(kind, fmt, X, Y):
         a, b = cdates(v, X, Y)
         if kind == "opm":
             sv = StateVector([7e6, 0.0, 0.0, 0.0, 7.5e3, 0.0], a, "cartesian", "EME2000")
-            sv.maneuvers = [ImpulsiveMan(b, [1.0, 0.0, 0.0])]
+            from beyond.orbits.man import ContinuousMan
+            sv.maneuvers = [ImpulsiveMan(b, [1.0, 0.0, 0.0]),
+                            ContinuousMan(b, __import__("datetime").timedelta(seconds=120), dv=[0.0, 1.0, 0.0])]
             back = ccsds.loads(ccsds.dumps(sv, fmt=fmt))
-            errs = [abs((back.date - a).total_seconds()), abs((back.maneuvers[0].date - b).total_seconds())]
-            errs = errs[:1] + [errs[1]] * 3
+            errs = [abs((back.date - a).total_seconds()), abs((back.maneuvers[0].date - b).total_seconds()),
+                    abs((back.maneuvers[1].start - b).total_seconds())]
+            errs = errs + [max(errs[1:])] * 3
         else:
             later = (a + __import__("datetime").timedelta(seconds=60)).change_scale(labels_for_replay(X, Y)[1])
             e = Ephem([StateVector([7e6, 0.0, 0.0, 0.0, 7.5e3, 0.0], a, "cartesian", "EME2000"),
